@@ -158,8 +158,8 @@ package participle
 //@   ensures len(ctx.apply) >= len(old(ctx.apply)) && forall(k, 0, len(old(ctx.apply)), ctx.apply[k] == old(ctx.apply[k]))
 //@   ensures forall(k, len(old(ctx.apply)), len(ctx.apply), ctx.apply[k] != nil && ctx.apply[k].strct == parent)
 //@   ensures errOK(result1) && errOK(ctx.deepestError)
-//@   ensures @fmKeep old(ctx.firstMatch) >= 0 ==> ctx.firstMatch == old(ctx.firstMatch) [C10 C01]
-//@   ensures @fmFirst old(ctx.firstMatch) < 0 && ctx.firstMatch >= 0 ==> old(ctx.rawCursor) <= ctx.firstMatch && ctx.firstMatch <= ctx.rawCursor [C10 C01]
+//@   ensures @fmKeep old(ctx.firstMatch) >= 0 ==> ctx.firstMatch == old(ctx.firstMatch) [C10 C01 C17]
+//@   ensures @fmFirst old(ctx.firstMatch) < 0 && ctx.firstMatch >= 0 ==> old(ctx.rawCursor) <= ctx.firstMatch && ctx.firstMatch <= ctx.rawCursor [C10 C01 C17]
 
 // The property's own predicate for "<identifier>" and for a literal "s"[:Type] (C10, C01):
 //@ spec fn refMatch(r *reference, t lexer.Token) bool = t.Type == r.typ
@@ -314,10 +314,10 @@ package participle
 
 // Groups: ( e ), ( e )?, ( e )*, ( e )+, ( e )!. Iterations run on fresh branches that are adopted when they
 // succeed; a failing iteration ends the repetition unless Stop commits to it.
-//@ func (*group).Parse [C01 C02 C06 C13]
+//@ func (*group).Parse [C01 C02 C06 C13 C08]
 //@   frame-tags C09
 //@   implements node.Parse
-//@   ensures g.mode == groupMatchNonEmpty && err == nil ==> ctx.rawCursor > old(ctx.rawCursor) && len(out) > 0 [C01]
+//@   ensures g.mode == groupMatchNonEmpty && err == nil ==> ctx.rawCursor > old(ctx.rawCursor) && len(out) > 0 [C01 C08]
 // ( e ) and ( e )! run e on the caller's own context, so that a committed failure inside e shows in it (C13);
 // an iteration of ? * + that failed ends the repetition only if it had consumed no more than the lookahead.
 //@   let pa1 *parseContext = arg1 after call node.Parse#1
@@ -355,6 +355,10 @@ package participle
 //@   use wfStrct(s) at entry
 //@   ensures len(ctx.apply) == len(old(ctx.apply))
 //@   ensures out != nil ==> len(out) == 1
+// every successful parse of a production records where it ended and what it consumed (C11)
+//@   let ie bool = true after call (*participle.strct).maybeInjectEndToken#1 default false
+//@   let it bool = true after call (*participle.strct).maybeInjectTokens#1 default false
+//@   ensures @injected err == nil && out != nil ==> ie && it [C11]
 //@   before call (*participle.strct).maybeInjectStartToken#1: assert token == &ctx.tokens[ctx.nextCursor] && ctx.rawCursor == old(ctx.rawCursor) [C11]
 //@   before call (*participle.strct).maybeInjectEndToken#1: assert token == &ctx.tokens[ctx.rawCursor] && ctx.rawCursor >= start [C11]
 //@   before call (*participle.strct).maybeInjectTokens#1: assert tokens == ctx.tokens[start:ctx.rawCursor] && start == old(ctx.rawCursor) [C11]
